@@ -323,7 +323,15 @@ pub fn generate(r: &mut Rng, hi: u64, lo: u64, other: (u64, u64)) -> TomlCase {
         11 => (format!("lo = {nl}\n"), "missing_hi"),
         12 => (format!("hi = {nh}\nlo = {nl}\nhi = {nh}\n"), "duplicate"),
         13 => (format!("hi = {nh}\n{unknown} = 1\nlo = {nl}\n"), "unknown_field"),
-        14 => (format!("\"hi\" = {nh}\n'lo' = {nl}\n"), "quoted_keys"),
+        14 => {
+            if r.bool() {
+                (format!("\"hi\" = {nh}\n'lo' = {nl}\n"), "quoted_keys")
+            } else {
+                let which = if r.bool() { "hi" } else { "lo" };
+                let deco = serde_json::to_string(&crate::vocab::decorated(r, which)).unwrap_or_else(|_| "\"x\"".into());
+                if which == "hi" { (format!("{deco} = {nh}\nlo = {nl}\n"), "key_near_miss") } else { (format!("hi = {nh}\n{deco} = {nl}\n"), "key_near_miss") }
+            }
+        }
         _ => (format!("hi = \"{nh}\"\nlo = {nl}\n"), "string_value"),
     };
     let host = match r.below(8) {
